@@ -13,6 +13,7 @@ map and its order on the wire is the hash map's.
 Requests through the concrete wire codec of `Model/MetricWire.lean` (C12W; `valid` = `validUtf8`):
   metric wenc <seq|_> <ts|_> L(Q..)   -> ok <hex of encW payload> | range <hex> (payload not `inRange`)
   metric wdec <hex>                   -> ok <seq|_> <ts|_> L(Q..) | err        (`decW`)
+  metric bprops <who> L(us..)         -> ok L(ps..) | undelivered   (property sets of birth metrics at the host store)
   metric we2e <who> <variant> <prevseq> <now> L(P..)
         -> as `metric e2e`, but the host reads `decW (encW payload)` (`invalid-publish` if that fails)
 -/
@@ -383,6 +384,17 @@ def stepMetric : List String → String
         | .handedOver p _ => "ok " ++ hostDataAnswer (ndataOfPayload p)
       | none => "bad-op"
     | _, _ => "bad-op"
+  | ["bprops", who, l] =>
+    -- property sets carried by BIRTH metrics (`BirthMetricDetails::with_properties`): the same edge encoding
+    -- (`encPS`) and host decoding (`decPS`) as for data metrics; a set the host refuses loses the whole birth
+    if who ≠ "n" && who ≠ "d" then "bad-op" else
+    match pList pUPS l with
+    | some sets =>
+      let rs := sets.map fun u => decPS (encPS u)
+      if rs.all (fun r => match r with | .ok _ => true | _ => false) then
+        "ok " ++ node "L" (rs.map fun r => match r with | .ok m => sPSet (hmapToPayload m) | _ => "_")
+      else "undelivered"
+    | none => "bad-op"
   | ["wbytes", who, variant, prevseq, now, l] =>
     -- the bytes of the message the edge hands over: `encW` of the published payload (ties `toTree`)
     match prevseq.toNat?, now.toNat? with
